@@ -44,7 +44,7 @@ def make_child(addr, st):
 
 def h_stop(trigger, n, s1, s2, s3):
     with notrace():
-        trigger_, n_ = conc(trigger, 2), conc(n, 4)
+        trigger_, n_ = conc(trigger, 3), conc(n, 4)
         states = [conc(x, len(STATES)) for x in (s1, s2, s3)[:n_]]
         ev("c12", trigger_, str(states))
         T.reset()
@@ -59,7 +59,8 @@ def h_stop(trigger, n, s1, s2, s3):
             errs = W.close()
             if errs:
                 raise RuntimeError("simulation kernel errors: %r" % (errs,))
-        return Outcome(None if sig is None else "%s|%s" % (sig, "terminate" if trigger_ == 0 else "sigterm"), bool(states), "states=%r" % ([STATES[x] for x in states],))
+        how = ["terminate", "sigterm", "short-terminate-then-sigterm"][trigger_]
+        return Outcome(None if sig is None else "%s|%s" % (sig, how), bool(states), "states=%r" % ([STATES[x] for x in states],))
 
 
 def _run(W, trigger, states):
@@ -78,6 +79,15 @@ def _run(W, trigger, states):
         ok = srv.terminate(timeout=5)
         if ok is not True:
             return "c12.server-terminate-returns-%r" % (ok,)
+    elif trigger == 2:
+        # the usual idiom: ask nicely with a short timeout, then SIGTERM whatever is left (the signal may arrive
+        # while the server is in the middle of reaping its children)
+        ok = srv.terminate(timeout=0.5, force=False)
+        if ok is not True:
+            if srv.is_alive():
+                simos._deliver_signal(srv.pid, simos._signal.SIGTERM)
+            if not srv.wait(timeout=20):
+                return "c12.server-survives-sigterm"
     else:
         simos._deliver_signal(srv.pid, simos._signal.SIGTERM)
         if not srv.wait(timeout=20):
@@ -106,7 +116,7 @@ def _run(W, trigger, states):
     return None
 
 
-_params = OrderedDict([("trigger", (0, 1)), ("n", (0, 3)), ("s1", (0, 4)), ("s2", (0, 4)), ("s3", (0, 4))])
+_params = OrderedDict([("trigger", (0, 2)), ("n", (0, 3)), ("s1", (0, 4)), ("s2", (0, 4)), ("s3", (0, 4))])
 
 _FUNCS = ["pyworkers.remote_server:RemoteServer.run", "pyworkers.remote_server:RemoteServer.install_handlers", "pyworkers.remote_server:RemoteServer.break_accept",
           "pyworkers.remote_server:RemoteServerProcess.run", "pyworkers.remote_server:RemoteServerProcess._start", "pyworkers.remote_server:RemoteServerProcess._release_self",
